@@ -255,6 +255,9 @@ func fixedMaps() []mxj.Map {
 			"_text": "u", "%text": "w", "@at": "z", "attr_q": "r", "_p": "s"}},
 		{"a": 1, "b": map[string]interface{}{"c": true, "-k": "v'\""}},
 		{"list": map[string]interface{}{"item": []interface{}{map[string]interface{}{"-id": "1", "v": "a"}, map[string]interface{}{"-id": "2", "v": "b"}}}},
+		// numeric, upper-case and hyphenated keys: an option leaking into a family it must not
+		// affect (dot notation into path parsing, case folding into queries) needs them to show
+		{"rows": []interface{}{map[string]interface{}{"cells": map[string]interface{}{"0": "a", "1": "b"}}, map[string]interface{}{"cells": map[string]interface{}{"0": "c", "Up-Key": " x "}}}, "Up-Key": map[string]interface{}{"0": 1.5, "Sub-Key": []interface{}{"p", "q"}}},
 	}
 }
 
@@ -432,6 +435,18 @@ var families = []family{
 			n, err = m.UpdateValuesForPath("c|7|num", "b")
 			b.WriteString(hres(n, err, map[string]interface{}(m)))
 			nm, err := m.NewMap("list.item:x.y", "a:z")
+			b.WriteString(hres(nm, err))
+			v, err = m.ValuesForPath("rows[1].cells.0")
+			b.WriteString(hres(v, err))
+			v, err = m.ValuesForPath("rows.cells.1")
+			b.WriteString(hres(v, err))
+			v, err = m.ValuesForPath("Up-Key.Sub-Key[1]")
+			b.WriteString(hres(v, err))
+			v, err = m.ValuesForKey("Up-Key")
+			b.WriteString(hres(v, err))
+			ok, err = m.Exists("rows[0].cells.1")
+			b.WriteString(hres(ok, err))
+			nm, err = m.NewMap("rows[1].cells.0:first", "Up-Key.0:n")
 			b.WriteString(hres(nm, err))
 		}
 		return b.String()
